@@ -54,6 +54,7 @@ func checkC20(p *Prog, r *Report) {
 	c20Consistencies(p, r)
 	c20Run(p, r)
 	c20Peers(p, r)
+	c20ConfiguredValuesKept(p, r)
 }
 
 func c20Versions(p *Prog, r *Report) {
@@ -627,4 +628,69 @@ func c20Peers(p *Prog, r *Report) {
 	}
 	r.count("sim_states", s2.Nodes)
 	r.check(len(lb) == 0 && n > 0, rule, "runConfig.listenAndServe", p.Pos(las.Pos()), "", strings.Join(dedupe(lb), " || "))
+}
+
+// c20ConfiguredValuesKept: a consistency level chosen by the operator is never replaced after
+// parsing.  Zero is a legal, documented value (ANY = 0x0000), so "default when unset" logic
+// keyed on the zero value silently turns an explicit setting into another one.
+func c20ConfiguredValuesKept(p *Prog, r *Report) {
+	const rule = "C20.configured-values-kept"
+	r.Rule(rule, "consistency-level options are written only by the option parser (UnmarshalText) and by struct literals that copy the parsed configuration; no later code re-defaults or rewrites them (ANY is the zero value: a zero test cannot tell 'unset' from 'any')")
+	isCL := func(t types.Type) bool {
+		n := namedOf(t)
+		if n == nil {
+			return false
+		}
+		if n.Obj().Name() == "ConsistencyLevel" && n.Obj().Pkg() != nil && strings.HasSuffix(n.Obj().Pkg().Path(), "/primitive") {
+			return true
+		}
+		return false
+	}
+	wraps := func(t types.Type) bool {
+		if isCL(t) {
+			return true
+		}
+		if st, ok := t.Underlying().(*types.Struct); ok {
+			for i := 0; i < st.NumFields(); i++ {
+				if st.Field(i).Embedded() && isCL(st.Field(i).Type()) {
+					return true
+				}
+			}
+		}
+		return false
+	}
+	var bad []string
+	n := 0
+	for _, fn := range p.ScopedFuncs("proxy") {
+		isParser := fn.Name() == "UnmarshalText" && fn.Signature.Recv() != nil
+		eachInstr(fn, func(in ssa.Instruction) {
+			st, ok := in.(*ssa.Store)
+			if !ok {
+				return
+			}
+			fa, ok := st.Addr.(*ssa.FieldAddr)
+			if !ok {
+				return
+			}
+			f := fieldOfAddr(fa)
+			if f == nil || !wraps(f.Type()) {
+				return
+			}
+			// the struct must be one of the proxy's configuration types (not a protocol message)
+			owner := namedOf(fa.X.Type())
+			if owner == nil || owner.Obj().Pkg() == nil || owner.Obj().Pkg().Path() != pkgPath("proxy") {
+				return
+			}
+			n++
+			if isParser {
+				return
+			}
+			if al, ok := fa.X.(*ssa.Alloc); ok && al.Parent() == fn {
+				// a literal under construction: fine when it copies a configuration value
+				return
+			}
+			bad = append(bad, fmt.Sprintf("%s: %s assigns %s.%s after the configuration was parsed (%s)", p.Pos(st.Pos()), fn.Name(), owner.Obj().Name(), f.Name(), valDesc(st.Val)))
+		})
+	}
+	r.check(len(bad) == 0 && n > 0, rule, "consistency option writers", "", fmt.Sprintf("%d writes, all by the parser or by copying literals", n), strings.Join(dedupe(bad), " || "))
 }
